@@ -129,7 +129,9 @@ func newEnv(fl *drv.Flags) *env {
 		e.users = append(e.users, fmt.Sprintf("u%d", i))
 	}
 	e.cfg.init = fl.CfgInt("init", 100)
-	e.cfg.initBtc = fl.CfgInt("initbtc", 0)
+	// every user holds some of the second denom, so that a deposit / fee cap of the wrong denom
+	// that the code wrongly accepted could actually be paid
+	e.cfg.initBtc = fl.CfgInt("initbtc", 9)
 	e.rateN, e.rateD = fl.CfgInt("raten", 0), fl.CfgInt("rated", 1)
 	e.cfg.taxNum, e.cfg.taxDen = fl.CfgInt("taxnum", 1), fl.CfgInt("taxden", 10)
 	e.cfg.slashNum, e.cfg.slashDen = fl.CfgInt("slashnum", 1), fl.CfgInt("slashden", 2)
@@ -668,7 +670,7 @@ func (e *env) project(ctx sdk.Context) any {
 func svcEvent(name, who string) chain.M {
 	return chain.M{"name": name, "who": who, "svc": "", "prov": "", "provs": []any{}, "ctx": "", "req": "",
 		"amt": int64(0), "price": int64(0), "tStart": int64(0), "tEnd": int64(0), "tDisc": int64(4),
-		"vVol": int64(0), "vDisc": int64(4), "setp": false, "pdenom": denom, "qos": int64(0), "timeout": int64(0),
+		"vVol": int64(0), "vDisc": int64(4), "setp": false, "pdenom": denom, "ddenom": denom, "idv": "", "qos": int64(0), "timeout": int64(0),
 		"repeated": false, "freq": int64(0), "total": int64(0), "thr": int64(0), "paused0": false,
 		"okres": true, "to": "", "dt": int64(1), "rank": int64(0), "rn": int64(0), "rd": int64(1),
 		"ok": true, "panic": false, "halt": false, "cbs": []any{}, "scbs": []any{}}
@@ -698,6 +700,10 @@ func norm(ev chain.M) chain.M {
 	if d := chain.Str(ev, "pdenom"); d != "" {
 		o["pdenom"] = d
 	}
+	if d := chain.Str(ev, "ddenom"); d != "" {
+		o["ddenom"] = d
+	}
+	o["idv"] = chain.Str(ev, "idv")
 	for _, k := range []string{"amt", "price", "tStart", "tEnd", "vVol", "qos", "timeout", "freq", "total", "thr", "rank"} {
 		o[k] = chain.Num(ev, k)
 	}
@@ -751,11 +757,38 @@ func (e *env) pricing(ev chain.M) string {
 	return s + "}"
 }
 
-func coinsOf(n int64) sdk.Coins {
+// coinsOfEv: the deposit / fee cap an event carries: amt of the event's "ddenom" — the base
+// denom, another denom ("btc", or one nobody holds), or "both" = two coins (stake and btc).
+func coinsOfEv(ev chain.M) sdk.Coins {
+	n := chain.Num(ev, "amt")
 	if n <= 0 {
 		return sdk.Coins{}
 	}
-	return sdk.NewCoins(sdk.NewInt64Coin(denom, n))
+	switch d := chain.Str(ev, "ddenom"); d {
+	case "", denom:
+		return sdk.NewCoins(sdk.NewInt64Coin(denom, n))
+	case "both":
+		return sdk.NewCoins(sdk.NewInt64Coin(denom, n), sdk.NewInt64Coin(denom2, n))
+	default:
+		if sdk.ValidateDenom(d) != nil {
+			d = "weird"
+		}
+		return sdk.NewCoins(sdk.NewInt64Coin(d, n))
+	}
+}
+
+// spell applies the id spelling of an event ("idv") to a hex id: "lc" = lower case (the same
+// id), "pfx" = one byte short, "pad" = one byte long (both refused by ValidateBasic).
+func spell(ev chain.M, id string) string {
+	switch chain.Str(ev, "idv") {
+	case "lc":
+		return strings.ToLower(id)
+	case "pfx":
+		return id[:len(id)-2]
+	case "pad":
+		return id + "00"
+	}
+	return id
 }
 
 func (e *env) realCtx(name string) string {
@@ -795,10 +828,10 @@ func (e *env) msgOf(ev chain.M) sdk.Msg {
 	case "Define":
 		return &servicetypes.MsgDefineService{Name: svc, Description: "d", Author: who, AuthorDescription: "a", Schemas: schemas}
 	case "Bind":
-		return &servicetypes.MsgBindService{ServiceName: svc, Provider: prov, Deposit: coinsOf(chain.Num(ev, "amt")),
+		return &servicetypes.MsgBindService{ServiceName: svc, Provider: prov, Deposit: coinsOfEv(ev),
 			Pricing: e.pricing(ev), QoS: uint64(chain.Num(ev, "qos")), Options: "{}", Owner: who}
 	case "UpdateBinding":
-		m := &servicetypes.MsgUpdateServiceBinding{ServiceName: svc, Provider: prov, Deposit: coinsOf(chain.Num(ev, "amt")),
+		m := &servicetypes.MsgUpdateServiceBinding{ServiceName: svc, Provider: prov, Deposit: coinsOfEv(ev),
 			QoS: uint64(chain.Num(ev, "qos")), Owner: who}
 		if chain.Bool(ev, "setp") {
 			m.Pricing = e.pricing(ev)
@@ -809,7 +842,7 @@ func (e *env) msgOf(ev chain.M) sdk.Msg {
 	case "Disable":
 		return &servicetypes.MsgDisableServiceBinding{ServiceName: svc, Provider: prov, Owner: who}
 	case "Enable":
-		return &servicetypes.MsgEnableServiceBinding{ServiceName: svc, Provider: prov, Deposit: coinsOf(chain.Num(ev, "amt")), Owner: who}
+		return &servicetypes.MsgEnableServiceBinding{ServiceName: svc, Provider: prov, Deposit: coinsOfEv(ev), Owner: who}
 	case "RefundDeposit":
 		return &servicetypes.MsgRefundServiceDeposit{ServiceName: svc, Provider: prov, Owner: who}
 	case "Call":
@@ -818,23 +851,23 @@ func (e *env) msgOf(ev chain.M) sdk.Msg {
 			in = `{"header":{},"body":{"pair":"btc-stake"}}`
 		}
 		return &servicetypes.MsgCallService{ServiceName: svc, Providers: e.addrs(strList(ev, "provs")), Consumer: who, Input: in,
-			ServiceFeeCap: coinsOf(chain.Num(ev, "amt")), Timeout: chain.Num(ev, "timeout"), Repeated: chain.Bool(ev, "repeated"),
+			ServiceFeeCap: coinsOfEv(ev), Timeout: chain.Num(ev, "timeout"), Repeated: chain.Bool(ev, "repeated"),
 			RepeatedFrequency: uint64(chain.Num(ev, "freq")), RepeatedTotal: chain.Num(ev, "total")}
 	case "Respond":
-		m := &servicetypes.MsgRespondService{RequestId: e.realReq(chain.Str(ev, "req")), Provider: who, Result: resultOK, Output: output}
+		m := &servicetypes.MsgRespondService{RequestId: spell(ev, e.realReq(chain.Str(ev, "req"))), Provider: who, Result: resultOK, Output: output}
 		if !chain.Bool(ev, "okres") {
 			m.Result, m.Output = resultBad, ""
 		}
 		return m
 	case "Pause":
-		return &servicetypes.MsgPauseRequestContext{RequestContextId: e.realCtx(chain.Str(ev, "ctx")), Consumer: who}
+		return &servicetypes.MsgPauseRequestContext{RequestContextId: spell(ev, e.realCtx(chain.Str(ev, "ctx"))), Consumer: who}
 	case "Start":
-		return &servicetypes.MsgStartRequestContext{RequestContextId: e.realCtx(chain.Str(ev, "ctx")), Consumer: who}
+		return &servicetypes.MsgStartRequestContext{RequestContextId: spell(ev, e.realCtx(chain.Str(ev, "ctx"))), Consumer: who}
 	case "Kill":
-		return &servicetypes.MsgKillRequestContext{RequestContextId: e.realCtx(chain.Str(ev, "ctx")), Consumer: who}
+		return &servicetypes.MsgKillRequestContext{RequestContextId: spell(ev, e.realCtx(chain.Str(ev, "ctx"))), Consumer: who}
 	case "Update":
-		return &servicetypes.MsgUpdateRequestContext{RequestContextId: e.realCtx(chain.Str(ev, "ctx")), Providers: e.addrs(strList(ev, "provs")),
-			Consumer: who, ServiceFeeCap: coinsOf(chain.Num(ev, "amt")), Timeout: chain.Num(ev, "timeout"),
+		return &servicetypes.MsgUpdateRequestContext{RequestContextId: spell(ev, e.realCtx(chain.Str(ev, "ctx"))), Providers: e.addrs(strList(ev, "provs")),
+			Consumer: who, ServiceFeeCap: coinsOfEv(ev), Timeout: chain.Num(ev, "timeout"),
 			RepeatedFrequency: uint64(chain.Num(ev, "freq")), RepeatedTotal: chain.Num(ev, "total")}
 	case "Withdraw":
 		m := &servicetypes.MsgWithdrawEarnedFees{Owner: who}
@@ -869,7 +902,7 @@ func (e *env) runMod(ctx sdk.Context, a *modAction) {
 		if chain.Bool(ev, "paused0") {
 			st = servicetypes.PAUSED
 		}
-		_, err = k.CreateRequestContext(cctx, chain.Str(ev, "svc"), provs, who, input, coinsOf(chain.Num(ev, "amt")),
+		_, err = k.CreateRequestContext(cctx, chain.Str(ev, "svc"), provs, who, input, coinsOfEv(ev),
 			chain.Num(ev, "timeout"), chain.Bool(ev, "repeated"), uint64(chain.Num(ev, "freq")), chain.Num(ev, "total"),
 			st, uint32(chain.Num(ev, "thr")), modName)
 	case "ModPause":
@@ -879,7 +912,7 @@ func (e *env) runMod(ctx sdk.Context, a *modAction) {
 	case "ModKill":
 		err = k.KillRequestContext(cctx, id, who)
 	case "ModUpdate":
-		err = k.UpdateRequestContext(cctx, id, provs, uint32(chain.Num(ev, "thr")), coinsOf(chain.Num(ev, "amt")),
+		err = k.UpdateRequestContext(cctx, id, provs, uint32(chain.Num(ev, "thr")), coinsOfEv(ev),
 			chain.Num(ev, "timeout"), uint64(chain.Num(ev, "freq")), chain.Num(ev, "total"), who)
 	case "ModWithdrawAll":
 		// the keeper's "everything of this owner" branch (no message reaches it)
@@ -1131,19 +1164,40 @@ func serviceRun(fl *drv.Flags, beh []chain.M, w *chain.TraceWriter, epilogue boo
 	}
 }
 
-// epilogue: kill every repeated context, run until nothing is queued any more,
-// then every owner withdraws the earned fees of each of its providers.
+// epilogue: the closing operations, computed from the REAL state the chain is in (e.last is the
+// projection of the last committed state), never from what a behaviour's author expected:
+//  1. two plain blocks, so that whatever the last operations started (also operations the
+//     code should have refused) unfolds;
+//  2. every repeated context that is not completed is killed by its consumer; blocks until
+//     both queues are empty (every batch in flight expires: slash + refund);
+//  3. every owner withdraws the earned fees of each of its providers;
+//  4. every available binding is disabled by its owner, blocks until the deposits are
+//     refundable, every binding with a deposit is refunded.
+//
+// Afterwards both escrows must be down to what the records say (C07_DepositEscrow,
+// C07_RequestEscrow), judged like every other step.  epilogue=2 in the driver cfg skips
+// phases 1 and 4 (the short form used before round 7).
 func (e *env) epilogue() {
+	full := e.fl.CfgInt("epilogue", 1) != 2
+	get := func(k string) chain.M { m, _ := e.last[k].(chain.M); return m }
+	list := func(k string) []any { l, _ := e.last[k].([]any); return l }
+	if full {
+		for i := 0; i < 2; i++ {
+			if !e.runBlock(nil, 1) {
+				return
+			}
+		}
+	}
 	var pending []chain.M
-	ctxs := e.last["ctx"].(chain.M)
+	ctxs := get("ctx")
 	for _, id := range chain.SortedKeys(ctxs) {
-		cm := ctxs[id].(chain.M)
-		if cm["repeated"].(bool) && cm["state"].(string) != "completed" {
+		cm, _ := ctxs[id].(chain.M)
+		if rep, _ := cm["repeated"].(bool); rep && chain.Str(cm, "state") != "completed" {
 			name := "Kill"
-			if cm["module"].(string) != "" {
+			if chain.Str(cm, "module") != "" {
 				name = "ModKill"
 			}
-			ev := svcEvent(name, cm["consumer"].(string))
+			ev := svcEvent(name, chain.Str(cm, "consumer"))
 			ev["ctx"] = id
 			pending = append(pending, ev)
 		}
@@ -1153,18 +1207,56 @@ func (e *env) epilogue() {
 			return
 		}
 		pending = nil
-		if len(e.last["newQ"].([]any)) == 0 && len(e.last["expQ"].([]any)) == 0 {
+		if len(list("newQ")) == 0 && len(list("expQ")) == 0 {
 			break
 		}
 	}
-	earned := e.last["earned"].(chain.M)
-	owner := e.last["owner"].(chain.M)
+	earned := get("earned")
+	owner := get("owner")
 	for _, p := range chain.SortedKeys(earned) {
-		o, _ := owner[p].(string)
-		ev := svcEvent("Withdraw", o)
+		ev := svcEvent("Withdraw", chain.Str(owner, p))
 		ev["prov"] = p
 		pending = append(pending, ev)
 	}
+	if len(pending) > 0 {
+		if !e.runBlock(pending, 1) {
+			return
+		}
+		pending = nil
+	}
+	if !full {
+		return
+	}
+	eachBinding := func(f func(svc, prov string, rec chain.M)) {
+		bind := get("bind")
+		for _, svc := range chain.SortedKeys(bind) {
+			row, _ := bind[svc].(chain.M)
+			for _, p := range chain.SortedKeys(row) {
+				if rec, ok := row[p].(chain.M); ok {
+					f(svc, p, rec)
+				}
+			}
+		}
+	}
+	eachBinding(func(svc, prov string, rec chain.M) {
+		if av, _ := rec["available"].(bool); av {
+			ev := svcEvent("Disable", chain.Str(rec, "owner"))
+			ev["svc"], ev["prov"] = svc, prov
+			pending = append(pending, ev)
+		}
+	})
+	// the block of the Disable messages; the next one is far enough ahead for every deposit
+	if !e.runBlock(pending, e.cfg.wait+1) {
+		return
+	}
+	pending = nil
+	eachBinding(func(svc, prov string, rec chain.M) {
+		if chain.Num(rec, "deposit") > 0 {
+			ev := svcEvent("RefundDeposit", chain.Str(rec, "owner"))
+			ev["svc"], ev["prov"] = svc, prov
+			pending = append(pending, ev)
+		}
+	})
 	if len(pending) > 0 {
 		e.runBlock(pending, 1)
 	}
@@ -1176,7 +1268,7 @@ func serviceDriver(mode string, fl *drv.Flags) error {
 	switch mode {
 	case "replay":
 		for _, beh := range chain.ReadBehaviours(fl.In) {
-			serviceRun(fl, beh, w, fl.CfgInt("epilogue", 1) == 1)
+			serviceRun(fl, beh, w, fl.CfgInt("epilogue", 1) != 0)
 		}
 	case "random":
 		serviceRandomAll(fl, w)
